@@ -24,7 +24,8 @@ def _us(y, mo, d, h=0, mi=0, s=0, us=0):
 FAR_INSTANTS = [_us(1, 1, 2), _us(1, 6, 15, 12, 0, 0, 123456), _us(999, 12, 31, 23, 59, 59, 999999), _us(1000, 1, 1), _us(1582, 10, 10),
                 _us(2999, 2, 28, 1, 2, 3, 4), _us(9999, 12, 30, 23, 59, 59, 999999)]
 EDGE = SENTINEL_LIKE + [" x", "x ", " ", "  ", "\tx", "x\t", '"', '""', "'", "''", 'a"b', "\r", "\n", "\r\n", "x\ny", ",", ";", "|", "\\", "\\n", "#x", "\ufeffx", "=1+1",
-        "C:\\temp\\new", "a\\", "a\\,b", "\\\"", "cafe\u0301", "caf\u00e9", "\u212b", "\u00c5", "_none ", " _none", "0", "-1", "1e5", "nan", "inf", "None", "t_x", "f_x", "_tag_x", "_field_x", "t", "f", "_", "é ", " \U0001F600"]
+        "C:\\temp\\new", "a\\", "a\\,b", "\\\"", "cafe\u0301", "caf\u00e9", "\u212b", "\u00c5", "_none ", " _none", "0", "-1", "1e5", "nan", "inf", "None", "t_x", "f_x", "_tag_x", "_field_x", "t", "f", "_", "é ", " \U0001F600",
+        "a\n#b", "x\r\n# y", "\n#", "#\n#", "a\r#b", "\\n", "\\r?\\n", "C:\\new\\readme.txt", "\\nu", "\\\n", "__none", "\\_none"]          # a line break followed by a comment sign; a backslash followed by the letter n or r
 DIALECTS = [dict(), dict(), dict(delimiter=";"), dict(delimiter="\t", quotechar="'"), dict(quoting=csv.QUOTE_ALL), dict(delimiter="|", quotechar="'", quoting=csv.QUOTE_ALL),
             dict(lineterminator="\n"), dict(lineterminator="\r"),
             dict(escapechar="\\"), dict(escapechar="\\", quoting=csv.QUOTE_NONE), dict(escapechar="!"), dict(escapechar="\\", doublequote=False)]
